@@ -10,6 +10,7 @@ from props.base import Context  # noqa: F401
 
 PID = 'C06'
 TIE_MODULES = ['DiffxVerif.Tie.Dom', 'DiffxVerif.Tie.Sections']
+NEEDS = ['sections', 'options', 'text', 'dom']
 ASSUMPTIONS = [
     'canonical files come from the streaming writer on generated programs; foreign files from the specification-derived generator of C03',
     'D14 classifier: TypeError raised by to_bytes() because an option read from a header is not a parameter of the writer entry point, or because no effective encoding exists for a text section',
